@@ -5,6 +5,7 @@ package clusters
 
 import (
 	"fmt"
+	"reflect"
 	"time"
 )
 
@@ -37,9 +38,32 @@ func (e *EndpointInfo) VerifProbing() bool {
 }
 
 // VerifPickerUpstreams returns the endpoints a matched policy may pick from and its strategy (read-only).
+// It reads the picker by reflection so that a change of the field's representation (e.g. endpoint objects instead of
+// names) changes what this hook can tell, not whether verification builds compile.
 func VerifPickerUpstreams(p EndpointPicker) ([]string, string) {
-	if s, ok := p.(*endpointPickStrategy); ok {
-		return append([]string{}, s.upstreams...), string(s.strategy)
+	v := reflect.ValueOf(p)
+	if v.Kind() != reflect.Ptr || v.IsNil() || v.Elem().Kind() != reflect.Struct {
+		return nil, ""
 	}
-	return nil, ""
+	strategy := ""
+	if f := v.Elem().FieldByName("strategy"); f.IsValid() && f.Kind() == reflect.String {
+		strategy = f.String()
+	}
+	f := v.Elem().FieldByName("upstreams")
+	if !f.IsValid() || f.Kind() != reflect.Slice {
+		return nil, strategy
+	}
+	var out []string
+	for i := 0; i < f.Len(); i++ {
+		e := f.Index(i)
+		switch {
+		case e.Kind() == reflect.String:
+			out = append(out, e.String())
+		case e.Kind() == reflect.Ptr && !e.IsNil() && e.Elem().Kind() == reflect.Struct:
+			if n := e.Elem().FieldByName("Endpoint"); n.IsValid() && n.Kind() == reflect.String {
+				out = append(out, n.String())
+			}
+		}
+	}
+	return out, strategy
 }
